@@ -118,18 +118,26 @@ P = {
        "the trace stream is skipped and the evidence says so.",
   ref="DESIGN.md section 5 C14, section 0"),
  "C16": dict(
-  text="27 Lean theorems about a transition-system model of the limiter tree (Use with six outcomes, tick reset + service loop, "
-       "New, child/root Close, ticker goroutine with lock and done hand-over) for all trees, request streams and interleavings: "
-       "granted_le_cap and granted_le_min_cap_of_chain per period, lastUsed_spec, answer_exactly_once, nil_only_after_charge, "
-       "immediate_errors, FIFO service, close_marks_subtree_and_fails_pending, close_returns (no deadlock; termination under "
-       "explicit fairness hypotheses), held_lock_would_deadlock (non-vacuity). The executable scheduler is proved to take only "
-       "model steps and is run in lock step with real limiters synchronised to observed ticks.",
-  note="Go scheduler/select fairness only as hypotheses; timing-ambiguous bursts are discarded as inconclusive, never failed; "
-       "Close-vs-tick hangs are searched by a child-process stress oracle with deadlines; SetCap is a step of the relation (grant_within_caps_in_force, "
-       "queued_above_lowered_cap_fails_at_tick, setCap_returns) and negative capacities are clamped to 0 as the code does; the "
-       "two per-period cap bounds carry the hypothesis that no SetCap happened in the period; requests above an ancestor's cap wait until Close (reading, Appendix B); LastUsed is specified for "
-       "limiters still linked into the tree.",
-  ref="DESIGN.md section 5 C16"),
+  text="38 Lean theorems about a protocol model in which controller.lock is part of the state (RL.Step: separate lock / body / "
+       "unlock steps for the ticker goroutine and for root Close - lock, mark, unlock, send on the unbuffered done - and lock + "
+       "body-and-unlock steps for every other call), over all trees, request streams and interleavings: cap bounds with SetCap "
+       "anywhere (granted in period p <= the largest cap in force during p, for the limiter and each ancestor; without SetCap so "
+       "far <= cap), Go-int exactness up to MaxInt, lastUsed_spec, exactly-once answers, nil only with a logged grant, never a "
+       "grant on a closed limiter, immediate errors, FIFO service, Close marks the subtree and fails pending requests, "
+       "lock_discipline (mutual exclusion; the goroutine blocked on done does not hold the lock), close_returns (no reachable "
+       "state is deadlocked; any holder can release the lock), ticker_never_blocked, api_call_returns, termination of Close under "
+       "scheduler-only fairness (holders run, mutex fair to the ticker, select fair) with a witness run (fair_run_exists), and the "
+       "CONTRAST unrepaired_close_deadlocks: in RL.StepU (send while holding the lock, the code before its fix) a deadlock is "
+       "reachable. Tie: lock-step bursts through the fused scheduler RL.exec (proved to take only steps of the relation); "
+       "forced schedules of the Close-vs-tick window (the model giving the set of outcomes of all interleavings); a model-free "
+       "stress oracle in child processes, also under -race.",
+  note="Go scheduler/select/mutex fairness only as hypotheses about the scheduler; timing-ambiguous bursts are discarded as "
+       "inconclusive, never failed; answered/glog/capMax are history fields written by the model in the same step as the action "
+       "they record (that the code's critical sections do the same is the transcription, checked by the tie); answer channels "
+       "are not modelled as channels; read locks are treated as exclusive; LastUsed is specified for limiters still linked into "
+       "the tree; a black-box fallback build (private identifiers renamed) observes ticks through sentinel child limiters and "
+       "skips the window area.",
+  ref="DESIGN.md section 5 C16, section 0"),
  "C04": dict(
   text="36 Lean theorems about the executable byte-level model of String/StringWithSign/Comma/CommaWithSign/FromString/"
        "Unmarshal*/Unquote/integer As and CheckedAs of f64.Int and f128.Int: toString_exact and toString_canonical, "
